@@ -66,12 +66,12 @@ func init() {
 	subs = append(subs,
 		&run.Sub{Name: "decoder-forms", N: func(t string) uint64 {
 			if t == "thorough" {
-				return 3 * (1 + 1<<14) // short forms + 2^14 blocks of 2^16 four-byte patterns per kind
+				return 6 * (1 + 1<<14) // short forms + 2^14 blocks of four-byte patterns per kind and operand position
 			}
-			return 3 * (1 + 64)
+			return 6 * (1 + 64)
 		}, Run: c08DecoderForms,
-			Rule: "for each number kind (real, coordinate, zero-to-one): all 128 one-byte and all 16384 two-byte patterns, and the four-byte patterns (all 2^30 in the thorough tier, stride 4099 in quick), decoded by the real decoder from hand-assembled SetNReg instructions and compared with the reference codec",
-			Min:  map[string]int64{"one_byte": 3 * 128, "two_byte": 3 * 16384, "four_byte": 100000}},
+			Rule: "for each number kind (real, coordinate, zero-to-one) at two operand positions each (the three SetNReg instructions; a level-of-detail bound, a path's start coordinate, an arc's rotation angle): all 128 one-byte and all 16384 two-byte patterns, and the four-byte patterns (SetNReg: all 2^30 in the thorough tier; other positions: 2^28 there; stride 4099 in quick), decoded by the real decoder from hand-assembled instructions and compared with the reference codec",
+			Min:  map[string]int64{"one_byte": 6 * 128, "two_byte": 6 * 16384, "four_byte": 200000, "patterns_at_the_arc_angle_position": 16384, "zero_to_one_patterns_outside_0_1_at_the_arc_angle_position": 1000}},
 		&run.Sub{Name: "naturals", N: func(t string) uint64 {
 			if t == "thorough" {
 				return 1 << 14
@@ -725,18 +725,70 @@ type nregSink struct {
 
 func (s *nregSink) SetNReg(adj uint8, incr bool, f float32) { s.outs = append(s.outs, f) }
 
+// posSink records the operand under observation at the other operand
+// positions: the lower level-of-detail bound, a path's start x, an arc's angle.
+type posSink struct {
+	rec.Nop
+	pos  uint8
+	outs []float32
+}
+
+func (s *posSink) SetLOD(a, b float32) {
+	if s.pos == 3 {
+		s.outs = append(s.outs, a)
+	}
+}
+
+func (s *posSink) StartPath(adj uint8, x, y float32) {
+	if s.pos == 4 {
+		s.outs = append(s.outs, x)
+	}
+}
+
+func (s *posSink) AbsArcTo(rx, ry, rot float32, la, sw bool, x, y float32) {
+	if s.pos == 5 {
+		s.outs = append(s.outs, rot)
+	}
+}
+
 func c08DecoderForms(c *run.Ctx, idx uint64) {
-	form := uint8(idx % 3)
-	blk := idx / 3
+	pos := uint8(idx % 6)
+	form := pos % 3
+	blk := idx / 6
 	opcode := byte(0xa8 + 8*form)
 	var a gen.Asm
 	a.Magic()
 	a.Nat(0, 1)
 	var raws []uint32
 	var ws []int
+	if pos == 5 {
+		a.Byte(0xc0) // one open path holds all the arcs
+		a.Byte(0x80)
+		a.Byte(0x80)
+	}
 	add := func(u uint32, w int) {
-		a.Byte(opcode)
-		a.Nat(u, w)
+		switch pos {
+		case 3: // SetLOD(<pattern>, 0)
+			a.Byte(0xc7)
+			a.Nat(u, w)
+			a.Byte(0x00)
+		case 4: // StartPath(0, <pattern>, 0); ClosePathEndPath
+			a.Byte(0xc0)
+			a.Nat(u, w)
+			a.Byte(0x80)
+			a.Byte(0xe1)
+		case 5: // AbsArcTo(1, 1, <pattern>, flags 0, 0, 0)
+			a.Byte(0xc0)
+			a.Byte(0x82)
+			a.Byte(0x82)
+			a.Nat(u, w)
+			a.Byte(0x00)
+			a.Byte(0x80)
+			a.Byte(0x80)
+		default:
+			a.Byte(opcode)
+			a.Nat(u, w)
+		}
 		raws = append(raws, u)
 		ws = append(ws, w)
 	}
@@ -751,7 +803,12 @@ func c08DecoderForms(c *run.Ctx, idx uint64) {
 		c.Count("two_byte", 16384)
 	} else {
 		b := uint32(blk - 1)
-		if c.Thorough() {
+		if c.Thorough() && pos >= 3 {
+			r := c.Rng(idx)
+			for j := uint32(0); j < 1<<14; j++ {
+				add(b<<16|j<<2|uint32(r.Intn(4)), 4)
+			}
+		} else if c.Thorough() {
 			for j := uint32(0); j < 1<<16; j++ {
 				add(b<<16|j, 4)
 			}
@@ -764,31 +821,51 @@ func c08DecoderForms(c *run.Ctx, idx uint64) {
 		}
 		c.Count("four_byte", int64(len(raws)))
 	}
-	s := &nregSink{outs: make([]float32, 0, len(raws))}
+	if pos == 5 {
+		a.Byte(0xe1)
+	}
+	var outs []float32
 	var err error
-	if !c.Guard("decode", nil, func() { err = decode.Decode(s, a.B) }) {
+	if pos < 3 {
+		s := &nregSink{outs: make([]float32, 0, len(raws))}
+		if !c.Guard("decode", nil, func() { err = decode.Decode(s, a.B) }) {
+			return
+		}
+		outs = s.outs
+	} else {
+		s := &posSink{pos: pos, outs: make([]float32, 0, len(raws))}
+		if !c.Guard("decode", nil, func() { err = decode.Decode(s, a.B) }) {
+			return
+		}
+		outs = s.outs
+	}
+	posName := []string{"", "", "", "/at-the-level-of-detail-position", "/at-the-path-start-position", "/at-the-arc-angle-position"}[pos]
+	if err != nil || len(outs) != len(raws) {
+		c.Violate("decoder-forms/decode-failed"+posName, map[string]interface{}{"form": form, "error": errStr(err), "delivered": len(outs), "want": len(raws)})
 		return
 	}
-	if err != nil || len(s.outs) != len(raws) {
-		c.Violate("decoder-forms/decode-failed", map[string]interface{}{"form": form, "error": errStr(err), "delivered": len(s.outs), "want": len(raws)})
-		return
+	if pos == 5 {
+		c.Count("patterns_at_the_arc_angle_position", int64(len(raws)))
 	}
 	for i, u := range raws {
 		want := refDecode(form, u, ws[i])
-		got := s.outs[i]
+		got := outs[i]
+		if pos == 5 && (want < 0 || want > 1) {
+			c.Count("zero_to_one_patterns_outside_0_1_at_the_arc_angle_position", 1)
+		}
 		ok := rec.SameBits(got, want)
 		if !ok && form == 2 && ws[i] < 4 && ref.Ulps(got, want) <= 1 {
 			ok = true
 		}
 		if !ok {
-			c.Violate(fmt.Sprintf("decoder-forms/value/%s/%d-byte", []string{"real", "coordinate", "zero-to-one"}[form], ws[i]),
+			c.Violate(fmt.Sprintf("decoder-forms/value/%s/%d-byte%s", []string{"real", "coordinate", "zero-to-one"}[form], ws[i], posName),
 				map[string]interface{}{"natural": u, "got": rec.FB(got), "want": rec.FB(want)})
 		}
 	}
 	c.EvalBulk(int64(len(raws)), int64(len(raws)-1))
 	if c.WantSample() {
 		k := len(raws) / 2
-		c.Sample(map[string]interface{}{"form": []string{"real", "coordinate", "zero-to-one"}[form], "bytes": ws[k], "natural": raws[k], "decoded": rec.FB(s.outs[k])})
+		c.Sample(map[string]interface{}{"form": []string{"real", "coordinate", "zero-to-one"}[form] + posName, "bytes": ws[k], "natural": raws[k], "decoded": rec.FB(outs[k])})
 	}
 }
 
